@@ -29,6 +29,7 @@ import (
 const rule = "fault time-lines over 3-6 one-second boundaries: 1-2 outage windows (directory renamed away, later restored) placed before/across/between boundaries x 1-4 writers with generated write periods, through the bare rolling appender or a Refresh-built logger; static faults (file closed, never opened, /dev/full, missing directory, failing or short-writing console stream) x call path; non-trivial = an outage covering >=1 boundary with >=1 write inside it, or a static fault exercised through a log call; distinct by the quantised time-line / (fault, path)"
 
 func init() {
+	log.RegisterTimeRotation("3s", log.TimeRotation{Interval: 3 * time.Second})
 	log.RegisterTimeRotation("1s", log.TimeRotation{Interval: time.Second})
 }
 
@@ -53,10 +54,20 @@ type timeline struct {
 	// generated outage covers the next boundary both appenders share and ends before the main
 	// appender's following boundary
 	Aligned bool
+	// IntervalS: the main appender's rotation interval in seconds (0 = 1). With 3 s and a writer that
+	// is silent for more than a second after a boundary, the attempt that fails comes late in its
+	// interval - the next one is still due at the next boundary, not an interval after the failure.
+	IntervalS int
+	// AsyncRoot (ViaLogger): the rolling appender sits behind an asynchronous root logger with the
+	// Block policy and a minimal buffer, and Flooders goroutines keep that buffer full around every
+	// boundary: whatever the appender does about a failed rotation, it does while the logger it
+	// serves is saturated
+	AsyncRoot bool
+	Flooders  int
 }
 
 func (tl timeline) String() string {
-	return fmt.Sprintf("dur=%dms outages=%v writers=%d periods=%v viaLogger=%v bursters=%d asFile=%v companion=%ds", tl.DurMS, tl.Outages, tl.Writers, tl.PeriodMS, tl.ViaLogger, tl.Bursters, tl.AsFile, tl.Companion)
+	return fmt.Sprintf("dur=%dms outages=%v writers=%d periods=%v viaLogger=%v bursters=%d asFile=%v companion=%ds interval=%ds asyncRoot=%v flooders=%d", tl.DurMS, tl.Outages, tl.Writers, tl.PeriodMS, tl.ViaLogger, tl.Bursters, tl.AsFile, tl.Companion, max(tl.IntervalS, 1), tl.AsyncRoot, tl.Flooders)
 }
 
 func genTimeline(t *rapid.T, label string) timeline {
@@ -79,6 +90,24 @@ func genTimeline(t *rapid.T, label string) timeline {
 		align(t, label, &tl)
 	}
 	return tl
+}
+
+// sparse3 turns tl into a one-writer time-line with a 3 s interval and a writer that is often silent
+// for more than a second after a boundary; the outage covers one boundary.
+func sparse3(t *rapid.T, label string, tl *timeline) {
+	*tl = timeline{IntervalS: 3, Writers: 1, PeriodMS: []int{rapid.SampledFrom([]int{1300, 1700, 1100}).Draw(t, label+"periodS")}, DurMS: 10200, ViaLogger: tl.ViaLogger, AsFile: tl.AsFile}
+	from := rapid.IntRange(300, 5500).Draw(t, label+"fromS")
+	tl.Outages = []window{{from, from + rapid.SampledFrom([]int{1900, 2600, 1200}).Draw(t, label+"lenS")}}
+}
+
+// saturated turns tl into a time-line through an asynchronous, blocking root logger that flooders
+// keep saturated around every boundary.
+func saturated(t *rapid.T, label string, tl *timeline) {
+	*tl = timeline{DurMS: rapid.IntRange(3300, 4600).Draw(t, label+"durF"), Writers: 1, PeriodMS: []int{23}, ViaLogger: true, AsyncRoot: true, Flooders: rapid.SampledFrom([]int{4, 6, 3}).Draw(t, label+"flooders"), Outages: tl.Outages, AsFile: tl.AsFile}
+	if len(tl.Outages) == 0 || tl.Outages[0].ToMS-tl.Outages[0].FromMS < 1100 {
+		from := rapid.IntRange(200, 1500).Draw(t, label+"fromF")
+		tl.Outages = []window{{from, from + rapid.SampledFrom([]int{1300, 1900}).Draw(t, label+"lenF")}}
+	}
 }
 
 // align turns tl into a one-writer time-line with a companion appender whose shared boundary
@@ -110,6 +139,7 @@ var nameRe = regexp.MustCompile(`^roll\.log\.(\d{14})$`)
 var companionRe = regexp.MustCompile(`^other\.log\.(\d{14})$`)
 
 func runTimeline(tl timeline, parent string) outcome {
+	iv := time.Duration(max(tl.IntervalS, 1)) * time.Second
 	dir := filepath.Join(parent, "logs")
 	away := filepath.Join(parent, "logs.away")
 	_ = os.MkdirAll(dir, 0o755)
@@ -118,10 +148,18 @@ func runTimeline(tl timeline, parent string) outcome {
 	var stop func()
 	if tl.ViaLogger {
 		// one time-line at a time uses the global configuration (see TestC19_Outage)
-		err := log.Refresh(map[string]string{
-			"enableCaller": "false", "appender.r.type": "RollingFile", "appender.r.fileDir": dir, "appender.r.fileName": "roll.log", "appender.r.rotation": "1s", "appender.r.maxAge": "100",
+		m := map[string]string{
+			"enableCaller": "false", "appender.r.type": "RollingFile", "appender.r.fileDir": dir, "appender.r.fileName": "roll.log", "appender.r.rotation": strconv.Itoa(max(tl.IntervalS, 1)) + "s", "appender.r.maxAge": "100",
 			"logger.l.type": "Logger", "logger.l.tags": "_c19_t", "logger.l.appenderRef.ref": "r",
-		})
+		}
+		if tl.AsyncRoot {
+			// no logger lists the tag: it is served by root, which is asynchronous and blocks when full
+			m = map[string]string{
+				"enableCaller": "false", "appender.r.type": "RollingFile", "appender.r.fileDir": dir, "appender.r.fileName": "roll.log", "appender.r.rotation": "1s", "appender.r.maxAge": "100",
+				"logger.root.type": "AsyncLogger", "logger.root.bufferFullPolicy": "Block", "logger.root.bufferSize": "100", "logger.root.appenderRef.ref": "r",
+			}
+		}
+		err := log.Refresh(m)
 		if err != nil {
 			return outcome{err: fmt.Errorf("VERIF-INCONCLUSIVE: %v", err)}
 		}
@@ -133,7 +171,7 @@ func runTimeline(tl timeline, parent string) outcome {
 		stop = log.Destroy
 	} else {
 		a := &log.RollingFileAppender{AppenderBase: log.AppenderBase{Name: "r"}, Layout: &log.TextLayout{BaseLayout: log.BaseLayout{FileLineLength: 48}},
-			FileDir: dir, FileName: "roll.log", Rotation: log.TimeRotation{Interval: time.Second}, MaxAge: 100}
+			FileDir: dir, FileName: "roll.log", Rotation: log.TimeRotation{Interval: iv}, MaxAge: 100}
 		if err := a.Start(); err != nil {
 			return outcome{err: fmt.Errorf("VERIF-INCONCLUSIVE: %v", err)}
 		}
@@ -247,6 +285,40 @@ func runTimeline(tl timeline, parent string) outcome {
 			mu.Unlock()
 		}()
 	}
+	// flooders: keep the asynchronous logger's buffer full around every boundary
+	for f := 0; f < tl.Flooders; f++ {
+		wg.Add(1)
+		go func() {
+			defer wg.Done()
+			seq := 0
+			var mine []rec
+			for {
+				now := time.Now()
+				next := now.Truncate(time.Second).Add(time.Second)
+				if next.After(endT) {
+					break
+				}
+				time.Sleep(next.Sub(now) - 25*time.Millisecond)
+				for time.Now().Before(next.Add(25 * time.Millisecond)) {
+					line := fmt.Sprintf("w%d:%d:%08x", 200+f, seq, crc32.ChecksumIEEE([]byte(strconv.Itoa(200+f)+"/"+strconv.Itoa(seq))))
+					t0 := time.Now()
+					if p := vk.Catch(func() { rawWrite(line) }); p != nil {
+						mu.Lock()
+						if firstErr == nil {
+							firstErr = fmt.Errorf("a write/log call panicked: %v", p)
+						}
+						mu.Unlock()
+						return
+					}
+					mine = append(mine, rec{200 + f, seq, t0, time.Now()})
+					seq++
+				}
+			}
+			mu.Lock()
+			all = append(all, mine...)
+			mu.Unlock()
+		}()
+	}
 	// the fault injector
 	type span struct{ from, to, fromDone, toBegin time.Time } // from/to enclose the outage, fromDone/toBegin lie inside it
 	var spans []span
@@ -320,7 +392,7 @@ func runTimeline(tl timeline, parent string) outcome {
 	}
 	out := outcome{files: len(ents)}
 	for _, sp := range spans {
-		if !sp.from.Truncate(time.Second).Equal(sp.to.Truncate(time.Second)) {
+		if !sp.from.Truncate(iv).Equal(sp.to.Truncate(iv)) {
 			out.boundaryInOutage = true
 		}
 	}
@@ -343,10 +415,10 @@ func runTimeline(tl timeline, parent string) outcome {
 			// creation is attempted again at the next boundary: with one writer, a write issued
 			// after the first boundary following restoration sits in a file created at/after it
 			if tl.Writers == 1 && tl.Bursters == 0 {
-				b := sp.to.Truncate(time.Second).Add(time.Second)
+				b := sp.to.Truncate(iv).Add(iv)
 				later := false
 				for _, o := range spans {
-					if o.from.After(sp.to) && o.from.Before(b.Add(time.Second)) {
+					if o.from.After(sp.to) && o.from.Before(b.Add(iv)) {
 						later = true // another outage begins around that boundary: not judged
 					}
 				}
@@ -372,6 +444,9 @@ func runTimeline(tl timeline, parent string) outcome {
 	// that call made the attempt (and failed); no file is named for that second - the next attempt
 	// belongs to the next boundary
 	for _, sp := range spans {
+		if iv != time.Second {
+			break // a file is named for the second of its creation: only with 1 s intervals is that the boundary
+		}
 		for b := sp.from.Truncate(time.Second).Add(time.Second); b.Before(sp.to); b = b.Add(time.Second) {
 			if !sp.fromDone.Before(b) {
 				continue
@@ -409,6 +484,14 @@ func TestC19_Outage(t *testing.T) {
 			tl := genTimeline(t, fmt.Sprintf("t%d", i))
 			if i == 1 && !tl.Aligned { // every batch has one time-line with a companion appender sharing a failed boundary
 				align(t, "t1", &tl)
+			}
+			if i == 2 { // ... one with a 3 s interval and a sparse writer
+				sparse3(t, "t2", &tl)
+			}
+			if i == 0 && rapid.Bool().Draw(t, "saturatedBatch") {
+				// ... and, in half of the batches, one through a saturated asynchronous root logger
+				// (it owns the global configuration of this batch)
+				saturated(t, "t0", &tl)
 			}
 			if tl.ViaLogger {
 				if usedLogger {
